@@ -427,3 +427,15 @@ func Or(a, b bool) bool { return a || b }
 // Stub replaces the named function of the code under test by fn while the engine runs
 // (no effect natively, where the harness realises the same structure with real values).
 func Stub(name string, fn interface{}) {}
+
+// StubPre installs a pre-stub (engine only): fn takes the original parameters and returns
+// (handled bool, results...); when handled is false the real function runs.
+func StubPre(name string, fn interface{}) {}
+
+// Ite is a conditional without a fork under the engine.
+func Ite(c, a, b bool) bool {
+	if c {
+		return a
+	}
+	return b
+}
